@@ -255,6 +255,30 @@ class Summariser:
         return True
 
 
+def _len_truth(test, pol):
+    """``len(x) > 0`` / ``len(x) != 0`` / ``len(x) >= 1`` test the truth of x (``== 0`` / ``< 1`` its negation)."""
+    if op(test) != "cmp":
+        return test, pol
+    o, l, r = test[1], test[2], test[3]
+
+    def is_len(t):
+        return op(t) == "call" and t[1] == ("builtin", "len") and len(t[2]) == 1 and not t[3]
+
+    if is_len(l) and is_const(r) and isinstance(r[1], int) and not isinstance(r[1], bool):
+        x, n = l[2][0], r[1]
+        if (o, n) in ((">", 0), (">=", 1)):
+            return x, pol
+        if (o, n) in (("==", 0), ("<", 1), ("<=", 0)):
+            return x, not pol
+    if is_len(r) and is_const(l) and isinstance(l[1], int) and not isinstance(l[1], bool):
+        x, n = r[2][0], l[1]
+        if (o, n) in (("<", 0), ("<=", 1)):
+            return x, pol
+        if (o, n) in (("==", 0), (">", 0), (">=", 1)):
+            return x, not pol if (o, n) != ("==", 0) else not pol
+    return test, pol
+
+
 class _Builder:
     def __init__(self, model: Model, fn: FunctionInfo, owner: "Summariser | None" = None) -> None:
         self.model = model
@@ -320,10 +344,20 @@ class _Builder:
             return None
         for q, a in zip(pos, args):
             out[q.name] = a
+        kwparam = next((q for q in params if q.kind == "kwarg"), None)
+        extra = []
         for k, v in t[3]:
-            if callee.param(k) is None:
-                return None
+            prm = callee.param(k)
+            if prm is None or prm.kind in ("vararg", "kwarg"):
+                if kwparam is None:
+                    return None
+                extra.append((("const", k), v))
+                continue
             out[k] = v
+        if kwparam is not None:
+            # surplus keyword arguments arrive as the **kwargs dictionary (in call order)
+            order = {k: i for i, (k, _) in enumerate(t[3])}
+            out[kwparam.name] = ("dict", tuple(extra))
         for q in params:
             if q.name in out:
                 continue
@@ -410,8 +444,27 @@ class _Builder:
                     if len(cs.paths) == 1 and cs.paths[0].out is not None and cs.paths[0].out[0] == "return" and all(ev.kind == "bind" for ev in cs.paths[0].events):
                         from .terms import substitute
 
-                        return self.inline_terms(substitute(cs.paths[0].out[1], {("param", k): v for k, v in bound.items()}), depth + 1)
+                        body = self._freshen(cs.paths[0].out[1])
+                        return self.inline_terms(substitute(body, {("param", k): v for k, v in bound.items()}), depth + 1)
         return t
+
+    def _freshen(self, t):
+        """Alpha-rename the variables bound inside an inlined helper's term: two instances of the
+        same helper must not share bound variables (their binders differ after substitution)."""
+        from .terms import subterms, substitute
+
+        bound = set()
+        for x in subterms(t):
+            if op(x) == "comp":
+                for tgt, _, _ in x[3]:
+                    for y in subterms(tgt):
+                        if op(y) == "bv":
+                            bound.add(y)
+            elif op(x) == "lambda":
+                pass
+        if not bound:
+            return t
+        return substitute(t, {b: ("bv", self.low.fresh(), b[2]) for b in bound})
 
     def syntactic_terms(self, body: list[ast.stmt]) -> dict[int, tuple]:
         """line -> terms evaluated *by that statement itself* (locals opaque, no copy propagation).
@@ -715,6 +768,7 @@ class _Builder:
         if op(test) == "cmp" and test[1] in neg:
             test = ("cmp", neg[test[1]], test[2], test[3])
             pol = not pol
+        test, pol = _len_truth(test, pol)
         a, b = p, p.fork()
         a.events.append(self.E("guard", st.lineno, test, pol))
         b.events.append(self.E("guard", st.lineno, test, not pol))
